@@ -201,19 +201,50 @@ def poison_values(rng, leaf_values, defaults):
 UNKNOWN_KEYS = ['MSA_', 'msa', 'LOWES', 'GMM', 'Min_Sep', 'foo', 'frac2', 'dt-scale', 'x']
 
 
+_SOURCE_KEYS = [None]
+
+
+def source_key_candidates(defaults):
+    """Unknown-key candidates that a change to the repository may start to treat specially:
+    case variants of the known keys, and string literals of the source that look like keys."""
+    if _SOURCE_KEYS[0] is None:
+        import glob
+        import re
+        known = set()
+
+        def walk(dct):
+            for k, v in dct.items():
+                known.add(k)
+                if isinstance(v, dict):
+                    walk(v)
+        walk(defaults)
+        cands = {k.lower() for k in known if k.lower() not in known} | \
+            {k.upper() for k in known if k.upper() not in known}
+        pat = re.compile(r"""['"]([A-Za-z_][A-Za-z0-9_]{3,28})['"]""")
+        lits = set()
+        for fil in glob.glob(os.path.join(kernel.repo_src(), 'ampycloud', '**', '*.py'),
+                             recursive=True):
+            with open(fil, encoding='utf-8') as fh:
+                lits.update(pat.findall(fh.read()))
+        lits = {w for w in lits if w not in known and ('_' in w or w.isupper())}
+        _SOURCE_KEYS[0] = sorted(cands) + sorted(lits)[:60]
+    return _SOURCE_KEYS[0]
+
+
 def add_unknown_keys(rng, assign, defaults, n=None):
     """Insert unknown keys at depth 1-3; returns the list of their paths."""
     paths = []
     dict_paths = [()] + sorted({p[:i] for p in leaf_paths(defaults) for i in range(1, len(p))})
     for _ in range(n or rng.choice([1, 1, 2, 3])):
         parent = rng.choice(dict_paths)
-        key = rng.choice(UNKNOWN_KEYS)
+        key = rng.choice(UNKNOWN_KEYS) if rng.random() < 0.4 else \
+            rng.choice(source_key_candidates(defaults))
         cur = assign
         for k in parent:
             cur = cur.setdefault(k, {})
         if key in cur:
             continue
-        cur[key] = rng.choice([1, 'a', [1, 2], None, {'deep': 1}])
+        cur[key] = rng.choice([1, 'a', [1, 2], [300, 1200], None, {'deep': 1}])
         paths.append(parent + (key,))
     return paths
 
